@@ -205,7 +205,7 @@ func runSchedule(types []reflect.Type, schedule []int) (trace []event, codecs []
 			if ev[1] == 1 {
 				delete(live, ev[0])
 			}
-		case <-time.After(5 * time.Second):
+		case <-time.After(30 * time.Second):
 			return s.trace, codecs, errs, panics, true
 		}
 		s.steps++
